@@ -216,7 +216,10 @@ where
     type Stream = Self;
 
     fn into_parts(self) -> (Vector<VectorDiffContainerStreamElement<S>>, Self::Stream) {
-        (self.buffered_vector.clone(), self)
+        // Hand out the limited view, not the internal copy of the source.
+        let values = self.buffered_vector.clone().truncate_from_end(self.limit);
+
+        (values, self)
     }
 }
 
